@@ -1,15 +1,18 @@
 import SaModel.Spec.SchemaOK
 /-
-Specification side of C09, foreign field objects: the two things `validate_field` (schema/mod.rs) does NOT look at and
-`validField` asks for.
+Specification side of C09, foreign field objects: two consequences of `validField` that are named on their own.
 
 * `rangeField` — numeric parameters fit the Rust types (`i32` sizes, `u8` precision, `i8` scale).  True of every Rust
-  value; a hypothesis only because the model's `Field` carries unbounded integers.
-* `entriesField` — the `entries` field of every `Map`, when it is a struct, carries no strategy a `Struct` field may not
-  carry.
-  `validate_map_field` validates the two fields inside the entries struct but not the entries field itself, so a
-  FOREIGN map field whose entries field is annotated with, say, `InconsistentTypes` or an unknown strategy name is
-  accepted (the JSON form cannot produce one: its children go through `into_field`, which validates them).
+  value; a hypothesis of `C09_foreign_iff` / `validate_iff_valid` only because the model's `Field` carries unbounded
+  integers (`validate_field` does not look at what the types already guarantee).
+* `entriesField` — the `entries` field of every `Map` (at any depth), when it is a struct, carries no strategy a `Struct`
+  field may not carry.
+  Before `fix: validate_map_field validates the entries field itself` `validate_map_field` validated the two fields
+  inside the entries struct but not the entries field itself, so a FOREIGN map field whose entries field was annotated
+  with, say, `InconsistentTypes` or an unknown strategy name was accepted (the JSON form cannot produce one: its children
+  go through `into_field`, which validates them) and `entriesField` was a second hypothesis of `C09_foreign_iff`.  Now it
+  is what `validate_field` enforces (`entriesField_of_validate`, `C09_foreign_entries_refused`), the class on which the
+  pinned and the repaired function coincide (`validateFieldPinned_eq`), and the driver's name for the failure signature.
 -/
 namespace SaModel.SchemaJson
 open SaModel SaModel.Dsl
